@@ -225,6 +225,33 @@ theorem c10_progress (s : State) (hr : Reachable s) (hcap : 0 < s.cap) (hs : s.s
       obtain ⟨hkc, hqq⟩ := hkk
       exact hwriter hws k hk hkc hqq
 
+/-- Every step the server takes by itself before `stopped()` resolves strictly decreases the
+work measure (`Proofs/StopLemmas.lean`: rank of every call's and connection's phase + the two
+flags). -/
+theorem c10_progress_terminates (s : State) (hn : s.resolved = false) (op : Op) (hint : internal op = true)
+    (he : enabled s op = true) : measure (step s op).1 < measure s := by
+  simp only [step, he, if_true]
+  exact measure_decreases s hn op hint he
+
+/-- a run of server steps: every op is a step of the server itself, enabled where it is taken,
+and none is taken after resolution -/
+def InternalRun : State → List Op → Prop
+  | _, [] => True
+  | s, op :: r => internal op = true ∧ enabled s op = true ∧ s.resolved = false ∧ InternalRun (step s op).1 r
+
+/-- Hence the shutdown is bounded: left alone by its environment (no new input, handlers
+return), the server can take at most `measure s` steps before `stopped()` has resolved — and by
+`c10_progress` it can always take one until then. -/
+theorem c10_bounded_shutdown (s : State) (ops : List Op) (h : InternalRun s ops) : ops.length ≤ measure s := by
+  induction ops generalizing s with
+  | nil => exact Nat.zero_le _
+  | cons op r ih =>
+    obtain ⟨hint, he, hn, hr⟩ := h
+    have h1 := ih _ hr
+    have h2 := c10_progress_terminates s hn op hint he
+    simp only [List.length_cons]
+    omega
+
 /-! ### non-vacuity -/
 
 set_option maxRecDepth 8192
@@ -281,6 +308,16 @@ example :
 /-- second `stop` after everything finished reports `AlreadyStopped`, before that `Ok` -/
 example :
     (step (run (init 4) demoOps) .stop).2 = .alreadyStopped ∧ (step (run (init 4) (demoOps.take 9)) .stop).2 = .ok := by
+  decide
+
+/-- `c10_bounded_shutdown` on the tail of the demo run: 12 server steps from a state of measure 18 -/
+example :
+    measure (run (init 4) (demoOps.take 8)) = 18 ∧
+    InternalRun (run (init 4) (demoOps.take 8))
+      [.acceptExit, .observeStop 1, .observeStop 2, .handlerReturn 10, .handlerReturn 20, .httpWrite 10,
+       .enqueue 20, .wsDrained 2, .writerStep 20, .writerExit 2, .httpClose 1, .resolve] := by
+  refine ⟨by decide, ?_⟩
+  simp only [InternalRun]
   decide
 
 end Jrpc.Stop
